@@ -30,7 +30,7 @@ from gunicorn.workers.sync import SyncWorker
 from gunicorn.workers.gthread import ThreadWorker, TConn
 from gunicorn.workers.base_async import AsyncWorker
 
-from simkit.core import HarnessError, SeamLeak
+from simkit.core import HarnessError, SeamLeak, Wedged
 
 
 # ----------------------------------------------------------------------------- simulated clock
@@ -197,6 +197,9 @@ def install():
 
 
 # ----------------------------------------------------------------------------- the connection
+OPS_CAP = 400000
+EOF_RECV_CAP = 100
+
 FAULT_ERRNO = {"EOF": None, "ECONNRESET": errno.ECONNRESET, "EPIPE": errno.EPIPE, "ENOTCONN": errno.ENOTCONN}
 
 
@@ -235,6 +238,10 @@ class SimSock:
     # -- bookkeeping
     def _op(self, kind, size=0):
         k = len(self.ops)
+        if k >= OPS_CAP:
+            # the per-connection code does not terminate (e.g. it keeps reading a socket that is at EOF): abort the run;
+            # the checks report this as a wedged worker
+            raise Wedged("more than %d I/O operations on one connection" % OPS_CAP)
         self.ops.append((kind, size))
         if self.closed:
             raise OSError(errno.EBADF, "operation on closed simulated socket")
@@ -256,12 +263,18 @@ class SimSock:
         return None
 
     # -- socket API used by gunicorn
+    def _eof(self):
+        self.eof_recvs = getattr(self, "eof_recvs", 0) + 1
+        if self.eof_recvs > EOF_RECV_CAP:
+            raise Wedged("recv() called %d times on a connection that is at end of file" % self.eof_recvs)
+        return b""
+
     def recv(self, n):
         if self._op("recv", n) == "eof":
-            return b""
+            return self._eof()
         self.recv_after.append(len(self.wire))
         if self.pos >= len(self.data):
-            return b""
+            return self._eof()
         while self.ci < len(self.cuts) and self.cuts[self.ci] <= self.pos:
             self.ci += 1
         stop = self.cuts[self.ci] if self.ci < len(self.cuts) else len(self.data)
@@ -462,6 +475,14 @@ def make_app(programs, state):
             return environ["wsgi.file_wrapper"](f, fspec.get("blksize", 8192))
 
         def gen():
+            if rb == "late":
+                # flush the head with an empty first chunk, read the request body only afterwards
+                yield b""
+                try:
+                    state.read_bodies[-1] = environ["wsgi.input"].read()
+                except BaseException:
+                    state.failed.add(idx)       # the request body was broken: the application fails after the head was sent
+                    raise
             for i, c in enumerate(chunks):
                 if fail == "chunk:%d" % i:
                     raise boom("in chunk %d" % i)
